@@ -36,6 +36,10 @@ def line_text(k, n, a, b):
         return 'two4'
     if k == 'ustr':
         return '.cstr "\\u0141"'
+    if k == 'wstr':
+        return '.2byte "AB"'
+    if k == 'rstr':
+        return '"\u00e9"'
     if k == 'i2':
         return f'ld8 {operand(n, a)}'
     if k == 'i3':
@@ -84,7 +88,7 @@ def line_text(k, n, a, b):
     raise ValueError(f'unknown line kind {k}')
 
 
-JOINABLE = {'i1', 'i2', 'i3', 'byte', 'm2', 'fill', 'zero', 'raw'}
+JOINABLE = {'i1', 'i2', 'i3', 'byte', 'm2', 'fill', 'zero', 'raw', 'wstr'}
 
 
 def render_prog(prog, inline_includes=False, join_labels=False):
@@ -132,7 +136,7 @@ def isa_for(params: dict) -> str:
     zones = [(nm(n), s, e) for (n, s, e) in params.get('pre_zones', [])]
     data = [(nm(n), a, v, sz) for (n, a, v, sz) in params.get('pre_data', [])]
     syms = [(nm(n), (str(v) if v >= 0 else None)) for (n, v) in params.get('init_defs', [])]
-    return carrier_yaml(address_size=params.get('addr_bits', 16), endian=params.get('endian', 'little'),
+    return carrier_yaml(embedded_strings=True, address_size=params.get('addr_bits', 16), endian=params.get('endian', 'little'),
                         origin=params.get('origin', None), zones=zones or None, data=data or None,
                         symbols=syms or None, page_size=params.get('page_size', None))
 
